@@ -8,6 +8,8 @@ R-C05-4  sign-sensitive uses of public integer operands (slice bounds) are guard
 R-C05-5  divisors are tested for zero before use
 R-C05-6  guard discipline (shared with C08): 'or raises' is not switched off behind the user's back
 R-C05-8  no integer operator reduces the value it reports modulo the field prime
+R-C05-9  check_zero / check_positive hint their 0/1 result with Python's truth value of x == 0 / x >= 0 over the integers
+R-C05-10 `~` (logical not) is never applied to an operand that may be a plain int/bool
 R-C05-7  the range-checking decomposition lies on every completing path of the operator arms that rely on it
 """
 import ast
@@ -402,6 +404,95 @@ def rule_no_reduction(repo, rule):
     rule.ok("%s" % RT, "operators", "%d operator methods scanned, %d in-place reductions of a reported value" % (ops, n))
 
 
+PRIMITIVES = {"check_zero": ("{s}.value == 0", "x == 0"), "check_positive": ("{s}.value >= 0", "x >= 0")}
+
+
+def rule_primitive_hints(repo, rule):
+    """The 0/1 result of the comparison primitives is hinted with Python's own truth value of the relation (over the
+    integers - not over the field, and not some other predicate), on every honest path and for both outcomes."""
+    from ..hints import all_cases, paths_to
+    from .c01 import base_env, honest
+    lc = repo.cls(RT, "LinComb")
+    for name, (ref, human) in PRIMITIVES.items():
+        fi = lc.methods.get(name)
+        if fi is None:
+            raise AnalysisError("LinComb.%s not found" % name)
+        reft = ast.parse(ref.format(s=fi.params[0]), mode="eval").body
+        rets = [r for r in rets_of(fi) if norm(r.value) != "NotImplemented"]
+        if not rets:
+            rule.violation(fi.loc(), fi.fq, "no return", "comparison primitive returns nothing", "%s/ret" % name)
+            continue
+        for r in rets:
+            bad, und, n = [], [], 0
+            for path in paths_to(fi.node, r):
+                if not honest(path):
+                    continue
+                for truth in (True, False):
+                    def assumptions(path=path, truth=truth):
+                        v = Valuer(base_env(fi))
+                        v.exact_int = True
+                        v.assume(ast.parse("is_guard()", mode="eval").body, True)
+                        v.assume(ast.parse("ignore_errors()", mode="eval").body, False)
+                        v.assume(reft, truth)
+                        for t, pol in path.conds:
+                            v.assume(t, pol)
+                        return v
+
+                    def build(v, path=path, truth=truth):
+                        for nm, node in path.assigns:
+                            try:
+                                v.env[nm] = v.val(node)
+                            except Undecidable:
+                                v.env[nm] = P.sym("?%s" % nm)
+                        for t, pol in path.conds:
+                            v.assume(t, pol)
+                        return v._p(r.value) - P.const(1 if truth else 0)
+                    for desc, p, _v in all_cases(build, assumptions):
+                        n += 1
+                        if isinstance(p, str):
+                            if not p.startswith("refuted"):
+                                und.append(p)
+                        elif not p.is_zero():
+                            bad.append((truth, desc, p))
+            term = "%s: result hint vs Python's `%s`  [%d case(s)]" % (norm(r.value), human, n)
+            if bad:
+                truth, desc, p = bad[0]
+                rule.violation(fi.loc(r), fi.fq, term + "  when %s is %s%s: result - expected = %s" % (
+                    human, truth, (" and " + ", ".join(desc)) if desc else "", p),
+                    "the comparison result is not hinted with Python's truth value of `%s`: the operator returns a different "
+                    "0/1 than the same expression on plain integers" % human, "%s/hint" % name)
+            elif und or n == 0:
+                rule.undecided(fi.loc(r), fi.fq, term, und[0] if und else "no honest path")
+            else:
+                rule.ok(fi.loc(r), fi.fq, term, "1 when the relation holds over the integers, 0 otherwise")
+
+
+def rule_int_invert(repo, rule):
+    """`~` is the logical not of LinCombBool only; on a plain int/bool operand Python computes -x-1, which is truthy for
+    both 0 and 1.  Every `~e` in the library must have an operand that can never be a plain integer."""
+    from .c06 import get_interp
+    it = get_interp(repo)
+    n = 0
+    for m in repo.modules.values():
+        if not m.name.startswith("pysnark.") or m.name.startswith("pysnark.zkinterface.") and not m.name.endswith(".backend"):
+            continue
+        for fi in m.functions.values():
+            for x in ast.walk(fi.node):
+                if isinstance(x, ast.UnaryOp) and isinstance(x.op, ast.Invert):
+                    owner = [p for p in parents(x) if isinstance(p, (ast.FunctionDef, ast.Lambda))]
+                    if owner and owner[0] is not fi.node:
+                        continue
+                    n += 1
+                    rec = it.int_inverts.get((fi.fq, x.lineno, x.col_offset))
+                    if rec is None:
+                        rule.ok(fi.loc(x), fi.fq, norm(x), "operand is never a plain integer (logical not of a Boolean wire)")
+                    else:
+                        rule.violation(fi.loc(x), fi.fq, "%s  operand kinds %s" % (norm(x), sorted(rec["kinds"])),
+                                       "`~` may be applied to a plain int/bool here: Python yields -x-1 (truthy for 0 and for 1), "
+                                       "not the logical complement", "invert/%s/%s" % (fi.fq, norm(x)[:40]))
+    return n
+
+
 def check(repo, rep, tier):
     rep.explanation = ("Agreement with Python for all operands is a value property; the clauses decided here are structural "
                        "necessary conditions: operand order of reflected methods, the relation each comparison tests (canonical "
@@ -424,6 +515,10 @@ def check(repo, rep, tier):
     rule_domain(repo, r7)
     r8 = rep.rule("R-C05-8", "integer operators report Python's integer, not its residue mod p", floor=1)
     rule_no_reduction(repo, r8)
+    r9 = rep.rule("R-C05-9", "comparison primitives hint Python's own truth value (over the integers)", floor=2)
+    rule_primitive_hints(repo, r9)
+    r10 = rep.rule("R-C05-10", "`~` is applied to Boolean wires only, never to plain integers", floor=2)
+    rule_int_invert(repo, r10)
     r6 = rep.rule("R-C05-6", "'or raises' is not silently switched off: guard state is restored exactly (shared with C08)", floor=10)
     from .c08 import guard_discipline
     guard_discipline(repo, r6)
